@@ -1,7 +1,9 @@
 /-
 Registration state of a `Container` (container.go `Add`, `addHandler`, `Remove`, `Handle`,
 `HandleWithFilter`, `ServeHTTP`, `Dispatch`; web_service.go `Route`, `RemoveRoute`) — the code as it
-is after commit 81d54c2 ("Remove re-registers the remaining WebServices on the new ServeMux").
+is after commits 81d54c2 ("Remove re-registers the remaining WebServices on the new ServeMux") and
+093fa53 ("Add no longer panics for root paths that share their fixed prefix": `addHandler` collects
+the ServeMux patterns of the services registered before and adds only the missing ones).
 
 What a request is answered with depends on three things the operations change: the ordered list of
 WebServices (with their routes), the ServeMux table, and the flag `isRegisteredOnRoot`.
@@ -31,7 +33,7 @@ inductive Op where
   deriving DecidableEq, Repr
 
 inductive Panic where
-  | exit                              -- `os.Exit(1)`: duplicate root path (container.go:99)
+  | exit                              -- `os.Exit(1)`: duplicate root path (container.go:98-101)
   | mux (e : Mux.RegError)            -- panic of `ServeMux.Handle`
   deriving DecidableEq, Repr
 
@@ -47,7 +49,7 @@ structure State where
 def init (k : RouterKind) : State :=
   { router := k, services := [], mux := [], onRoot := false, live := [], handlers := [] }
 
-/-- container.go:304 `fixedPrefixPath` -/
+/-- container.go:306 `fixedPrefixPath` -/
 def fixedPrefixPath (pathspec : Str) : Str :=
   match index '{' pathspec with
   | none => pathspec
@@ -58,41 +60,51 @@ def reg (t : Mux.Table) (p : Str) (h : Mux.Target) : Except Panic Mux.Table :=
   | .ok t' => .ok t'
   | .error e => .error (.mux e)
 
-/-- the `alreadyMapped` scan of container.go:124-130 over `c.webServices`; `each != service` compares
-    pointers: the service identity is `Service.id` -/
-def alreadyMapped (all : List Svc) (s : Svc) : Bool :=
-  all.any fun each => each.svc.id != s.svc.id && each.root == s.root
+/-- what one WebService given to `addHandler` before contributes to the map `mapped`
+    (container.go:126-132): its pattern `fixedPrefixPath(each.RootPath())`, and that pattern + "/"
+    when it does not end in "/" -/
+def mappedOf (root : Str) : List Str :=
+  let other := fixedPrefixPath root
+  if hasSuffix ['/'] other then [other] else [other, other ++ ['/']]
 
-/-- container.go:116 `addHandler`; `all` is `c.webServices` at the time of the call -/
-def addHandler (all : List Svc) (s : Svc) (t : Mux.Table) : Except Panic (Mux.Table × Bool) :=
+/-- the keys of `mapped` (container.go:125-132) for the services `registered` -/
+def mapped (registered : List Svc) : List Str := registered.flatMap fun each => mappedOf each.root
+
+/-- container.go:117 `addHandler`; `registered` are the WebServices that were given to `addHandler`
+    for this ServeMux before (`c.webServices` in `Add`, `newServices` so far in `Remove`).  Each of
+    the two patterns of the service is registered iff it is missing from `mapped`; the root case
+    registers "/" without looking at `mapped`. -/
+def addHandler (registered : List Svc) (s : Svc) (t : Mux.Table) : Except Panic (Mux.Table × Bool) :=
   let pattern := fixedPrefixPath s.root
   if pattern = ['/'] ∨ pattern = [] then
     match reg t ['/'] .dispatch with
     | .ok t' => .ok (t', true)
     | .error e => .error e
-  else if alreadyMapped all s then .ok (t, false)
   else
-    match reg t pattern .dispatch with
+    let m := mapped registered
+    -- container.go:133 `if !mapped[pattern]`
+    match (if m.contains pattern then .ok t else reg t pattern .dispatch) with
     | .error e => .error e
     | .ok t' =>
-      if hasSuffix ['/'] pattern then .ok (t', false)
-      else
+      -- container.go:136 `if !strings.HasSuffix(pattern, "/") && !mapped[pattern+"/"]`
+      if !hasSuffix ['/'] pattern && !m.contains (pattern ++ ['/']) then
         match reg t' (pattern ++ ['/']) .dispatch with
         | .ok t'' => .ok (t'', false)
         | .error e => .error e
+      else .ok (t', false)
 
-/-- the loop of container.go:152-160 (`Remove`): `all` is the old `c.webServices`, still in place
-    while the new mux is filled -/
-def rebuild (all : List Svc) (root : Str) : List Svc → Mux.Table → Bool → Except Panic (Mux.Table × Bool)
-  | [], t, r => .ok (t, r)
-  | each :: rest, t, r =>
+/-- the loop of container.go:154-162 (`Remove`): `news` is `newServices` so far (what `addHandler`
+    gets as `registered`), `t` the new ServeMux, `r` is `newIsRegisteredOnRoot` -/
+def rebuild (root : Str) : List Svc → List Svc → Mux.Table → Bool → Except Panic (Mux.Table × Bool)
+  | [], _, t, r => .ok (t, r)
+  | each :: rest, news, t, r =>
     if each.root != root then
       if !r then
-        match addHandler all each t with
-        | .ok (t', r') => rebuild all root rest t' r'
+        match addHandler news each t with
+        | .ok (t', r') => rebuild root rest (news ++ [each]) t' r'
         | .error e => .error e
-      else rebuild all root rest t r
-    else rebuild all root rest t r
+      else rebuild root rest (news ++ [each]) t r
+    else rebuild root rest news t r
 
 /-- web_service.go:181 `Route` -/
 def Svc.addRoute (s : Svc) (r : RouteDecl) : Svc := { s with svc := { s.svc with routes := s.svc.routes ++ [r] } }
@@ -116,7 +128,7 @@ def step (st : State) : Op → Except Panic State
       | .ok (t, r) => .ok { st with mux := t, onRoot := r, services := st.services ++ [s] }
       | .error e => .error e
   | .remove root =>
-    match rebuild st.services root st.services [] false with
+    match rebuild root st.services [] [] false with
     | .ok (t, r) =>
       .ok { st with services := st.services.filter (fun each => each.root != root), mux := t, onRoot := r, live := [] }
     | .error e => .error e
@@ -175,7 +187,7 @@ variable (E : ReEnv)
 
 def State.config (st : State) : Config := ⟨st.router, st.services.map (·.svc)⟩
 
-/-- container.go:197 `Dispatch`, container.go:313 `ServeHTTP` -/
+/-- container.go:199 `Dispatch`, container.go:315 `ServeHTTP` -/
 def answer (st : State) (e : Entry) (req : Req) : Answer :=
   match e with
   | .dispatch => .routed (route E st.config req)
